@@ -448,6 +448,8 @@ func protoOracle(ops, impl []string, which string) string {
 	entryTerm := map[string]int{} // id -> term of the entry (from the states)
 	shownBy := map[string]int{}   // id -> term of the leader whose read showed it first
 	swapped := false              // an election with nodes being removed has succeeded
+	prevAck := map[string]int{}   // "leader>follower" -> acknowledged offset in the previous state
+	prevTerm := map[int]int{}     // node -> term in the previous state
 	for i, o := range ops {
 		if i >= len(impl) {
 			break
@@ -619,6 +621,23 @@ func protoOracle(ops, impl []string, which string) string {
 					}
 				}
 			}
+			// C04: a node never acknowledges entries on behalf of a term lower than its own
+			for l := range st {
+				if st[l].ctrl != "L" {
+					continue
+				}
+				for fo, ack := range st[l].cursors {
+					key := fmt.Sprintf("%d>%d@%d", l, fo, st[l].term)
+					pt, seen := prevTerm[fo]
+					if prev, ok := prevAck[key]; ok && ack > prev && fo < len(st) && seen && pt > st[l].term && st[fo].term > st[l].term && want("C04") {
+						return fmt.Sprintf("op %d: n%d, which has answered a new-term request for term %d, acknowledged offset %d to n%d, the leader of the lower term %d", i, fo, st[fo].term, ack, l, st[l].term)
+					}
+					prevAck[key] = ack
+				}
+			}
+			for n := range st {
+				prevTerm[n] = st[n].term
+			}
 			nLeaders := map[int]int{}
 			for n, s := range st {
 				if s.ctrl == "L" && s.status == "leader" {
@@ -693,6 +712,11 @@ func (C03) Nontrivial(ops []string, outs []string) bool {
 // genProtoDirected adds the situations the single properties are about to a random script.
 func genProtoDirected(rng *rand.Rand, which string, i int) []string {
 	ops := genProtoCase(rng, i%3 == 0)
+	if which == "C04" && i%5 == 3 {
+		// the same, with the new leader's process gone when the deposed leader reconnects
+		return []string{"p.init n=3", "p.elect 0 1", fmt.Sprintf("p.write 0 %d", 10+i), "p.settle", "p.cut 0", fmt.Sprintf("p.write 0 %d", 100+i), fmt.Sprintf("p.write 0 %d", 200+i),
+			"p.elect 1 2", fmt.Sprintf("p.write 1 %d", 300+i), "p.settle", "p.state", "p.restart 1", "p.heal 0", "p.settle", "p.state", "p.elect 2 3", "p.settle", "p.state", "p.read 2"}
+	}
 	if (which == "C03" || which == "C04") && i%5 == 2 {
 		// a deposed leader with an uncommitted tail comes back while the others follow a newer term
 		return []string{"p.init n=3", "p.elect 0 1", fmt.Sprintf("p.write 0 %d", 10+i), "p.settle", "p.cut 0", fmt.Sprintf("p.write 0 %d", 100+i), fmt.Sprintf("p.write 0 %d", 200+i),
